@@ -150,6 +150,28 @@ void simk_raise(int sig, int thread)
 	simk_progress();
 }
 
+/* a thread ends: what is still pending for it was process-directed and goes to another thread */
+void simk_sig_thread_exit(int t)
+{
+	if (!simk_sig_enabled || t < 0 || t >= MAXTHR)
+		return;
+	for (int s = 1; s < NSIGS; s++) {
+		if (!tpend[t][s])
+			continue;
+		tpend[t][s] = 0;
+		int to = -1;
+		for (int u = 0; u < simk_nthreads() && u < MAXTHR; u++)
+			if (u != t && simk_thread_takes_signals(u) && !sigismember(&tmask[u], s)) { to = u; break; }
+		for (int u = 0; to < 0 && u < simk_nthreads() && u < MAXTHR; u++)
+			if (u != t && simk_thread_alive(u)) to = u;
+		if (to >= 0) {
+			tr("\"e\":\"SigGen\",\"sig\":%d,\"x\":%d}", s, to);
+			tpend[to][s] = 1;
+		}
+	}
+	simk_progress();
+}
+
 static int do_sigmask(int how, const sigset_t *set, sigset_t *old)
 {
 	if (me >= MAXTHR)
